@@ -21,7 +21,7 @@ META = {
               "sqrt -> fresh variable with solver-decided congruence", "numpy.linalg.solve -> cofactors",
               "TPS SVD on concrete system matrix in real LAPACK"],
     "assumptions": ["floats are exact reals", "non-degenerate point sets"],
-    "not_covered": ["3-D rotation/similarity", "histories longer than 3 (state after set_target depends only on source and last target if the one-step obligations hold)"],
+    "not_covered": ["3-D rotation/similarity", "retargeting the pseudoinverse of a 3-D AlignmentAffine (via=pinv is 2-D for that class)", "histories longer than 3 (state after set_target depends only on source and last target if the one-step obligations hold)"],
     "trusted": [],
 }
 
